@@ -404,6 +404,20 @@ namespace hgraph
                     wall_now = current_wall_time();
                     if (wake_requested_before_timeout) { break; }
                 }
+                // Nothing can be evaluated before min(target, next_cycle). When
+                // the evaluation clock is still ahead of the wall clock (a run
+                // whose start_time lies in the future) a producer wake must not
+                // run that cycle early: only a stop request cuts this wait.
+                const DateTime earliest = std::min(target, next_cycle);
+                const auto stop_requested = [&state] {
+                    return state.stop_requested.load(std::memory_order_acquire);
+                };
+                while (wall_now < earliest && !stop_requested())
+                {
+                    static_cast<void>(state.condition.wait_for(
+                        lock, std::min(earliest - wall_now, state.max_wait_slice), stop_requested));
+                    wall_now = current_wall_time();
+                }
             }
 
             // This cycle's evaluation time, from two rules in strict
